@@ -4,6 +4,7 @@ import json, os, re, subprocess, time
 SEMANTIC = [
     "postcondition not satisfied",
     "precondition not satisfied",
+    "precondition not met",
     "assertion failed",
     "assertion failure",
     "invariant not satisfied",
